@@ -332,7 +332,7 @@ class Models:
             raise py_exc(AttributeError, f"exception has no attribute {attr}")
         if isinstance(obj, Ext):
             return self.e.ext_getattr(c, obj, attr, node)
-        if isinstance(obj, (SV, str, bytes, bytearray, tuple)):
+        if isinstance(obj, (SV, str, bytes, bytearray, tuple, BigInt)):
             return ValMethod(obj, attr)
         if isinstance(obj, Closure):
             raise Undecided(f"attribute {attr} of function")
